@@ -89,25 +89,38 @@ def rule_a1(repo, res):
         for t in (n.targets if isinstance(n, ast.Assign) else []):
             if isinstance(t, ast.Subscript) and isinstance(t.value, ast.Name):
                 var = t.value.id
-        hp = [a.arg for a in fn.args.args[1:]]
-        if not m.startswith("_") or var not in hp:
-            return m
-        callers = []
-        for c2 in encoder_classes(repo):
-            for m2, fn2 in repo.classes[c2].methods.items():
-                for x in ast.walk(fn2):
-                    if isinstance(x, ast.Call) and norm(x.func) == f"self.{m}":
-                        callers.append((c2, m2, fn2, x))
-        entries = set()
-        for (c2, m2, fn2, x) in callers:
-            _, der2 = derived_from_params(fn2)
-            i = hp.index(var)
-            arg = x.args[i] if i < len(x.args) else next((k.value for k in x.keywords if k.arg == var), None)
-            if isinstance(arg, ast.Name) and arg.id in der2 and not m2.startswith("_"):
-                entries.add(m2)
-            else:
-                return m
-        return entries.pop() if len(entries) == 1 else m
+        # climb through private helpers (any depth) as long as the changed object is the caller's own argument
+        cur = {(m, var)}
+        for _ in range(5):
+            nxt, entries = set(), set()
+            for (hm, hvar) in cur:
+                hfn = None
+                for c2 in encoder_classes(repo):
+                    hfn = hfn or repo.classes[c2].methods.get(hm)
+                hp = [a.arg for a in hfn.args.args[1:]] if hfn is not None else []
+                if not hm.startswith("_") or hm.startswith("__") or hvar not in hp:
+                    entries.add(hm)
+                    continue
+                callers = []
+                for c2 in encoder_classes(repo):
+                    for m2, fn2 in repo.classes[c2].methods.items():
+                        for x in ast.walk(fn2):
+                            if isinstance(x, ast.Call) and norm(x.func) == f"self.{hm}":
+                                callers.append((c2, m2, fn2, x))
+                if not callers:
+                    return m
+                for (c2, m2, fn2, x) in callers:
+                    _, der2 = derived_from_params(fn2)
+                    i = hp.index(hvar)
+                    arg = x.args[i] if i < len(x.args) else next((k.value for k in x.keywords if k.arg == hvar), None)
+                    if isinstance(arg, ast.Name) and arg.id in der2:
+                        nxt.add((m2, arg.id))
+                    else:
+                        return m
+            if not nxt:
+                return entries.pop() if len(entries) == 1 else m
+            cur = nxt | {(e, None) for e in entries}
+        return m
     sites = [(c, entry_of(c, m, fn, n), fn, n, what) for (c, m, fn, n, what) in sites]
     permitted = []
     for (c, m, fn, n, what) in sites:
